@@ -70,16 +70,20 @@ theorem fault_conditions_from_outcome :
     Koreo.Gen.WorkflowFaultConsts.stepsCancelledCondType = "Ready" ∧
     Koreo.Gen.WorkflowFaultConsts.stepsExceptionCondType = "Ready" := by decide
 
-/-- how `load_api_resource` / `_create_api_resource` / `reconcile_krm_resource` answer API errors is what
-    `rfPass` has: load errors ⇒ Retry(DEFAULT_LOAD_RETRY_DELAY); create: 409 ⇒ Retry, anything else ⇒ PermFail;
-    patch / delete are not guarded (their exceptions escape and are contained by the task group) -/
-theorem rf_fault_table_matches_source :
-    Koreo.Gen.WorkflowFaultConsts.loadErrorsRetry = true ∧
-    Koreo.Gen.WorkflowFaultConsts.createConflictRetry = true ∧
-    Koreo.Gen.WorkflowFaultConsts.createOtherPermFail = true ∧
-    Koreo.Gen.WorkflowFaultConsts.createExceptionPermFail = true ∧
-    Koreo.Gen.WorkflowFaultConsts.patchGuarded = false ∧
-    Koreo.Gen.WorkflowFaultConsts.deleteGuarded = false := by decide
+/-- one row of the probed table agrees with the model: answer, cluster situation afterwards, API requests issued -/
+def rfRowOk (r : RfCfg × ObjState × Option (Nat × FaultKind) × RAns ObjState × ObjState × List Method) : Bool :=
+  decide ((rfPass objMach r.1 r.2.2.1 r.2.1).ans = r.2.2.2.1 ∧ (rfPass objMach r.1 r.2.2.1 r.2.1).st = r.2.2.2.2.1 ∧
+    (rfPass objMach r.1 r.2.2.1 r.2.1).calls = r.2.2.2.2.2)
+
+set_option maxRecDepth 100000 in
+/-- **`rfPass` is what `reconcile_resource_function` does**: the table the translator obtains by running the REAL
+    function against the in-memory API — every combination of flags (patch / never / recreate / readonly / create
+    disabled / deleteIfExists) × situation (absent / matching / differing) × fault (none; GET or mutation failing with
+    raise-before, raise-after, 404, 409, 500, 403, 429, no response, hang) — agrees with the model row by row: answer
+    (Ok / Retry with its delay / PermFail / escaping exception / hang), situation afterwards, API requests.  Probed, not
+    read off the syntax: restructuring the code leaves the table as it is; changing how any error is answered breaks
+    this theorem. -/
+theorem rf_table_matches_source : Koreo.Gen.WorkflowFaultConsts.rfTable.all rfRowOk = true := by decide
 
 /-! ## containment and truthfulness, for every possible outcome of the task group -/
 
